@@ -14,7 +14,9 @@
   does NOT reach instants before year 1).
   Iterator[T] (iteratortype.go) is inside the model too: `Ty.iterator t`, a covariant wrapper on the type level (assignability, Equals,
   Generic, the `commonType` arm); its values (px.IteratorValue) are not part of the value language, so `inst (.iterator _) v = false`.
-  Not modelled (second tier; harness-side predicates only, labelled as tests): Callable, Runtime, Like, Init,
+  Runtime[runtime, name, pattern] (runtimetype.go, types WITHOUT a Go type) likewise: `Ty.runtime rt nm pat`, a leaf; its values
+  (*RuntimeValue) are outside the value language.
+  Not modelled (second tier; harness-side predicates only, labelled as tests): Callable, Like, Init, Runtime types that carry a Go type,
   TypeReference, SemVer, SemVerRange, URI, TypeSet, the Pcore::* meta types as type terms, user-defined
   recursive aliases.  Non-recursive user aliases are expanded by the harness encoder.  The two built-in recursive aliases
   `Data` and `RichData` are constructors with direct recursive definitions.
@@ -106,6 +108,7 @@ inductive Ty where
   | struct (ms : List (String × Bool × Ty))       -- name, key is Optional[..], value type
   | variant (ts : List Ty)
   | optional (t : Ty) | notUndef (t : Ty) | typ (t : Ty) | sensitive (t : Ty) | iterable (t : Ty)
+  | runtime (rt nm : String) (pat : Option String)   -- Runtime[runtime, name, pattern] (runtimetype.go) without a Go type; values outside the value language
   | iterator (t : Ty)                     -- Iterator[T] (iteratortype.go); its values (px.IteratorValue) are outside the value language
   | object (p : Option (List Nat))        -- none = default Object; some path = user object type by ancestor path
   deriving Repr, Inhabited
@@ -189,6 +192,7 @@ def Ty.beq : Ty → Ty → Bool
   | .enum vs ci, .enum vs' ci' => vs == vs' && ci == ci'
   | .pattern rs, .pattern rs' => rs == rs'
   | .regexp s, .regexp s' => s == s'
+  | .runtime r n p, .runtime r' n' p' => r == r' && n == n' && p == p'
   | .coll r, .coll r' => r == r'
   | .array e r, .array e' r' => Ty.beq e e' && r == r'
   | .hash k v r, .hash k' v' r' => Ty.beq k k' && Ty.beq v v' && r == r'
